@@ -19,8 +19,11 @@ git apply "$PATCH" || { echo '{"error":"patch does not apply"}'; exit 2; }
 suite > /tmp/seed-$NAME-mut.txt
 SUITE_SAME=false; diff -q /tmp/seed-$NAME-base.txt /tmp/seed-$NAME-mut.txt >/dev/null && SUITE_SAME=true
 cp "$DEMO" "$PKG/"
+bpfprep() { if [ -n "${BPF_PREP:-}" ]; then (cd control && rm -rf kern/headers && ln -s /verif/bpf/headers kern/headers && GOPACKAGE=control /verif/bin/bpf2go -cc clang -no-strip -cflags "-O2 -Wall -DMAX_MATCH_SET_LEN=1024 -I/usr/include/x86_64-linux-gnu" -tags '!dae_stub_ebpf' -target bpfel -type port_range -type tuples_key bpf kern/tproxy.c -- -I./headers >/dev/null 2>&1); fi; }
+bpfprep
 go1.26 test -vet=off -count=1 $TAGARG -run "${DEMO_RUN:-.}" "./$PKG/" > /tmp/seed-$NAME-demo-mut.txt 2>&1; DM=$?
 [ -n "${DEMO_RUN:-}" ] || true
 git apply -R "$PATCH"
+bpfprep
 go1.26 test -vet=off -count=1 $TAGARG -run "${DEMO_RUN:-.}" "./$PKG/" > /tmp/seed-$NAME-demo-base.txt 2>&1; DB=$?
 echo "{\"name\":\"$NAME\",\"suite_same_as_head\":$SUITE_SAME,\"demo_exit_with_change\":$DM,\"demo_exit_without_change\":$DB}"
